@@ -352,9 +352,12 @@ def replay_native(crate, harness, replay_file, timeout=1800):
         # with --nocapture the verdict word can be separated from `test <name> ...` by the harness' own output: also accept the
         # summary line of this single-test run together with a panic message
         'reproduced': bool(ran and ran.group(1) == 'FAILED') or bool(
-            re.search(r'test result: FAILED\. 0 passed; 1 failed', out + err) and m and harness in (out + err)),
+            re.search(r'test result: FAILED\. 0 passed; 1 failed', out + err) and m and harness in (out + err))
+            # the replay did not return: the watchdog of kani/draw.rs ended the process (non-termination is a counterexample too)
+            or ('SAMPLED-HANG harness=%s' % harness) in (out + err),
         'ran': bool(ran) or ('running 1 test' in (out + err)),
-        'panic': (m.group(1) + ' ' + m.group(2)) if m else None,
+        'panic': (m.group(1) + ' ' + m.group(2)) if m else (
+            'iteration did not return (watchdog)' if 'SAMPLED-HANG' in (out + err) else None),
         'output_tail': (out + err)[-2500:],
     }
 
